@@ -124,7 +124,7 @@ impl Property for C13 {
         "cases: pairs of values from a small universe (small/big ints, binaries as constant vs heap rope vs slice, named/unnamed/labelled tuples, nested, Ok, closures of one definition with equal and different int/binary captures, of another definition, a capture-less function) where one side is built locally and the other arrives as a process result, in a message to a comparer that captured the first, as a second spawn capture, from an in-memory module, or is built on a later REPL line after a same-shape tuple with different field types was merged; both orders of each comparison plus the reflexive one; refs minted by 1-4 processes (and the REPL process, across lines) returned and compared pairwise; handles of 1-3 processes obtained by the spawner, by `&.` in the body and by `&.` one and two calls deep, compared by the spawner and by a comparer process that captured them. The verdict vector must equal the model's structural equality, be symmetric and reflexive, and all minted refs must be pairwise distinct, under every sampled placement (1-6 workers) and schedule. Non-trivial: >=2 workers, >=1 out-of-order handled message, conclusive. Distinct = distinct (scenario shape, interleaving hash)."
     }
     fn required_probes(&self) -> Vec<&'static str> {
-        vec!["pair_via_process_result", "pair_via_message", "pair_via_spawn_capture", "pair_via_module", "pair_across_repl_lines", "refs_from_several_processes", "equal_pair_checked", "unequal_pair_checked", "mass_mint_over_2_16_refs_on_one_worker", "process_handles_from_several_call_depths", "function_values_compared", "compared_through_a_partial_view"]
+        vec!["pair_via_process_result", "pair_via_message", "pair_via_spawn_capture", "pair_via_module", "pair_across_repl_lines", "refs_from_several_processes", "equal_pair_checked", "unequal_pair_checked", "mass_mint_over_2_16_refs_on_one_worker", "process_handles_from_several_call_depths", "function_values_compared", "compared_through_a_partial_view", "nil_and_resource_handles_compared"]
     }
     fn generate(&self, rng: &mut Rng, _tier: Tier) -> Scenario {
         let mut h = crate::rng::Fnv::default();
@@ -346,10 +346,51 @@ impl Property for C13 {
             let his: Vec<String> = (0..nhp).map(|i| format!("[hi{i}, hj{i}, hk{i}]")).collect();
             cur.push(format!("hvs = [{}, {}]", his.join(", "), names.join(", ")));
         }
+        // nil and resource handles: the two kinds of value for which "equal" cannot be read off the
+        // value a pinned match yields (nil is the no-match value; a verdict must not depend on it), so
+        // the verdict is taken from a block dispatch. nil by three construction paths (literal, a
+        // timed-out select, a process result); two open files.
+        let nilres = rng.chance(1, 3);
+        h.u64(nilres as u64);
+        let mut nv_expected: Vec<&str> = Vec::new();
+        if nilres {
+            let cur = lines.last_mut().unwrap();
+            cur.push("nn0 = []".to_string());
+            cur.push("nn1 = ! [0]".to_string());
+            cur.push("nnp = @{ [] }".to_string());
+            cur.push("nn2 = !nnp".to_string());
+            let nn = ["nn0", "nn1", "nn2"];
+            let (a, b) = (nn[rng.usize(3)], nn[rng.usize(3)]);
+            cur.push(format!("nv0 = [{a}, {b}] {{ | =[x, x] => 1 | 0 }}"));
+            nv_expected.push("1");
+            let (a, b) = (nn[rng.usize(3)], nn[rng.usize(3)]);
+            cur.push(format!("nv1 = {a} {{ | =&{b} => 1 | 0 }}"));
+            nv_expected.push("1");
+            let (a, b) = (nn[rng.usize(3)], nn[rng.usize(3)]);
+            cur.push(format!("nv2 = [1, {a}] {{ | =[1, &{b}] => 1 | 0 }}"));
+            nv_expected.push("1");
+            cur.push("rf = [\"/c13a\" .0, 577, 420] __file_open__".to_string());
+            cur.push("rg = [\"/c13b\" .0, 577, 420] __file_open__".to_string());
+            cur.push("nv3 = [rf, rf] { | =[x, x] => 1 | 0 }".to_string());
+            nv_expected.push("1");
+            cur.push("nv4 = [rf, rg] { | =[x, x] => 1 | 0 }".to_string());
+            nv_expected.push("0");
+            cur.push("nv5 = rg { | =&rf => 1 | 0 }".to_string());
+            nv_expected.push("0");
+            cur.push("nv6 = rf { | =&rf => 1 | 0 }".to_string());
+            nv_expected.push("1");
+            cur.push("nv7 = [[rf, 1], [rf, 1]] { | =[x, x] => 1 | 0 }".to_string());
+            nv_expected.push("1");
+            cur.push("nvs = [nv0, nv1, nv2, nv3, nv4, nv5, nv6, nv7]".to_string());
+        }
         let mut fin: Vec<String> = (0..npairs).map(|k| format!("e{k}")).collect();
         if nhp > 0 {
             fin.push("hvs".into());
             expected.push(format!("[{}]", hv_expected.join(", ")));
+        }
+        if nilres {
+            fin.push("nvs".into());
+            expected.push(format!("[{}]", nv_expected.join(", ")));
         }
         fin.push("rvs".into());
         fin.push(format!("[{}]", ref_vars.join(", ")));
@@ -379,7 +420,7 @@ impl Property for C13 {
             timing: false,
             io: false,
             fixed_faults: Default::default(),
-            expect: serde_json::json!({ "value": expected_s, "transports": transports, "minters": nmint, "equal": eq_n, "unequal": ne_n, "handles": nhp, "fn_pairs": fn_pairs, "partial_views": partial_views }),
+            expect: serde_json::json!({ "value": expected_s, "transports": transports, "minters": nmint, "equal": eq_n, "unequal": ne_n, "handles": nhp, "fn_pairs": fn_pairs, "partial_views": partial_views, "nilres": nilres }),
             shape: h.0,
             est_len: 100,
             min_quantum: 0,
@@ -395,6 +436,9 @@ impl Property for C13 {
         }
         if scn.expect["minters"].as_u64().unwrap_or(0) >= 2 {
             m.insert("refs_from_several_processes".into(), 1);
+        }
+        if scn.expect["nilres"].as_bool().unwrap_or(false) {
+            m.insert("nil_and_resource_handles_compared".into(), 1);
         }
         if scn.expect["partial_views"].as_u64().unwrap_or(0) >= 1 {
             m.insert("compared_through_a_partial_view".into(), 1);
